@@ -3508,8 +3508,9 @@ impl<'s> Semantics<'s> {
                     Expr::cmpneq(rhs.clone(), expr_const(0, rhs.bits()))?,
                 )?,
             )?;
-            // This shifts lhs right by (rhs - 1)
-            let cf = Expr::shr(lhs, Expr::sub(rhs.clone(), expr_const(1, rhs.bits()))?)?;
+            // This shifts lhs right (arithmetically: once the count exceeds the operand size
+            // the last bit shifted out is a copy of the sign) by (rhs - 1)
+            let cf = Expr::ashr(lhs, Expr::sub(rhs.clone(), expr_const(1, rhs.bits()))?)?;
             // Apply mask
             let cf = Expr::trun(1, Expr::and(cf, non_zero_mask)?)?;
             block.assign(scalar("CF", 1), cf);
